@@ -26,6 +26,7 @@ partial def exprOfJson (j : Json) : Except String Expr := do
     | [Json.str "isnone", x] => return .isNone (← exprOfJson x)
     | [Json.str "isnan", x] => return .npIsnan (← exprOfJson x)
     | [Json.str "isscalar", x] => return .npIsscalar (← exprOfJson x)
+    | [Json.str "len", x] => return .len (← exprOfJson x)
     | _ => throw s!"bad expr {j.compress.take 80}"
   | _ => throw s!"bad expr {j.compress.take 80}"
 
@@ -120,7 +121,8 @@ def cstateOfJson (j : Json) : Except String CState := do
 def flagsOfJson (j : Json) : Except String MachineFlags := do
   let bandWhole ← boolOfJson (fieldD j "bandWhole" (Json.bool false))
   let resetPipelineCfg ← boolOfJson (fieldD j "resetPipelineCfg" (Json.bool false))
-  return { bandWhole, resetPipelineCfg }
+  let mergeOnlyDicts ← boolOfJson (fieldD j "mergeOnlyDicts" (Json.bool false))
+  return { bandWhole, resetPipelineCfg, mergeOnlyDicts }
 
 def cstateToJson (m : CState) : Json :=
   mkObj [("pipeline_cfg", jvalToJson (.obj m.pipelineCfg)), ("right_disp_map", Json.bool m.rightDispMap),
